@@ -522,12 +522,23 @@ CLAIMS = {
          "the vtable wrapper must reach one declared Go function; ill-formed programs (dyn without impl, unsatisfied bound, duplicate or "
          "ambiguous methods) must be rejected. Widened: receivers that are trait objects of ANOTHER trait (impl B for dyn A, UFCS B::m(d)), "
          "and an effect family - every call form of an effectful method in 21 value/statement/loop/branch/match positions - whose real Go ASTs "
-         "are run under Go.Sem: all forms of one (receiver, position) must print and return the same.",
-    design_ref="§5 C17, 'C17 — as built', 'C17 — widened'",
+         "are run under Go.Sem: all forms of one (receiver, position) must print and return the same. Overlapping inherent impls "
+         "(impl[T] C[T] next to impl C[int32]): inherent_overlap_forms_agree, path_form_without_overlap, exact_instantiation_wins over a model of "
+         "lookup_inherent_method and both call forms, and - over a package-indexed model (Model/MethodEnv.lean: resolve_type_name, "
+         "env_for_receiver_ty) - inherent_forms_agree_across_packages (whichever package is being checked, the path form finds what the dot "
+         "form finds when both are put to the environment of the package that defines the type; hypothesis discharged for qualified names and "
+         "for names written unqualified in a library by resolve_env_idem_of_fixed / resolve_env_idem_unqualified_in_library), "
+         "path_form_guard_on_other_table. Multi-package projects under the same Go.Sem oracle: the overlap family in three placements and the "
+         "effect family with trait, receiver types, impl and call sites distributed over Main / Lib / Root in 9 placements (every combination the "
+         "orphan rule and the import graph allow; a rotating share on quick, all on thorough); negative programs also as a library and with "
+         "their declarations in another package than their functions.",
+    design_ref="§5 C17, 'C17 — as built', 'C17 — widened', 'C17 — overlapping inherent impls', 'C17 — the same-effect families inside library packages', 'Seeded C17-path-form-current-package-env (round 11)'",
     note="'Same code runs' is identity of the Go function reached; equality of results additionally needs C07/C09 (no Go toolchain to execute). "
          "For receivers that are instances of generic types the dyn form is proved NOT to agree (dyn_generic_instance_mismatch) - known finding; "
-         "trait bounds are not checked at calls of generic functions - known finding. Single-package programs only; the 16 source anchors of the "
-         "naming sites are re-checked textually on every run (Gen/Dispatch.lean). Trusted: Lean kernel, harness dump scraping, goscope.rs.",
+         "trait bounds are not checked at calls of generic functions - known finding. The name-level tie is single-package; multi-package projects "
+         "are judged by behaviour (Go.Sem) and the package-indexed lookup model is tied by source anchors, not by a per-call differential run; "
+         "the trait side of 'which package's environment' is exercised by the placements but not modelled. The 29 source anchors of the "
+         "naming sites and environment choices are re-checked textually on every run (Gen/Dispatch.lean). Trusted: Lean kernel, harness dump scraping, goscope.rs.",
     technique="Lean 4 proof (unfolding + structural induction on types) + differential correspondence at every naming site of the real pipeline"),
  "C19": dict(
     category="proof",
